@@ -444,7 +444,7 @@ func checkSaveOrder(c *run.Ctx, r *fsRun, op int, o fsops.Op, dir string, detail
 
 type c19Stats struct {
 	kills, killsInside, fsizeKills, faults, orderChecked, verifies, recoveries int
-	kinds                                                          map[string]bool
+	kinds                                                                      map[string]bool
 }
 
 func genScript(c *run.Ctx) []fsops.Op {
